@@ -19,7 +19,9 @@ META = {
         "without a loop. Twins are compared step by step (result, exception type, state, callback "
         "multiset, injected values) and each twin is checked against the reference on its own; "
         "RuntimeWarning 'never awaited', 'Task was destroyed but it is pending' and unraisable "
-        "exceptions inside a scenario are violations. distinct_nontrivial = distinct (coroutine-subset "
+        "exceptions inside a scenario are violations. "
+        "20% of the twins use coroutine-function wrappers (functools.wraps) around plain functions returning awaitables; a separate shard puts coroutine guards in the deciding position of guard expressions. "
+        "distinct_nontrivial = distinct (coroutine-subset "
         "mode, driver, scenario class [nested sends / faults / guards async], suspended at least once)."
     ),
     "assumptions": [
